@@ -222,12 +222,39 @@ def hist_shrink(rng):
     return h.line()
 
 
+def hist_race(rng):
+    """op-level interleavings of two list-mutating paths: a create issued while a retention run's first
+    physical delete is parked; lifecycle deleteExpiredSegments racing DeleteOldestSegment on one segment"""
+    zn, unit, base = pick(rng)
+    z = L.zone(zn)
+    num = rng.randint(1, 3)
+    ttl = (unit, rng.randint(1, 5))
+    h = L.Hist("hist.race", zn, unit, num, ttl, base)
+    cells = build_run(rng, h, z, unit, num, base, rng.randint(2, 5))
+    u = L.unit_ns(unit) * num
+    for _ in range(rng.randint(1, 3)):
+        if rng.random() < 0.6:
+            # clock so that some (not all) existing segments are expired; the new write is recent
+            k = rng.randrange(0, len(cells))
+            clock = cells[k][1] + L.dur(ttl) + rng.choice([0, 1, rng.randrange(0, u)])
+            h.add("clock %d" % clock, clock)
+            ts = clock - rng.randrange(0, max(1, min(u, L.dur(ttl))))
+            h.add("retcreate %d" % ts, ts, ts + 8 * DAY)
+        else:
+            h.add("delrace")
+        wide_select(h, cells, rng)
+        if rng.random() < 0.3:
+            a, b = rng.choice(cells)
+            h.create(a + rng.randrange(0, b - a))
+    return h.line()
+
+
 class C07(vlib.Spec):
     prop = "C07"
     lean_modules = ["Banyan.Props.C07", "Banyan.Tie.C07"]
     theorems = ["Banyan.C07." + t for t in [
         "before_cases", "before_halfopen", "remove_exact", "remove_only_expired", "select_hides_expired", "select_pins",
-        "forced_cleanup_bounds", "forced_cleanup_oldest", "retention_gate_exclusive", "tickWith_keeps",
+        "forced_cleanup_bounds", "forced_cleanup_oldest", "removeSeg_absent_noop", "removeSeg_exact", "retention_gate_exclusive", "tickWith_keeps",
         "retention_property_partial", "retention_property_repaired", "retention_statement_fails", "ttl_update", "ttl_update_legacy_counterexample", "tick_event_time_legacy_counterexample", "applyOp_projects"]] + [
         "Banyan.Tie.C07." + t for t in ["creation_gap_tie", "tick_snap_tie", "ttl_day_tie", "keep_one_tie"]]
     go_driver = "seg"
@@ -255,7 +282,9 @@ class C07(vlib.Spec):
             "(also of the other unit), clock set to segment edge + TTL +-1 ns (and random / backwards), then SelectSegments (all flag "
             "combinations), the registered retention action, Tick, DeleteOldestSegment, reopen; hist.ttlupd: TTL changed through "
             "UpdateOptions between runs; hist.force: forced cleanup down to the last segment racing retention (both orders); "
-            "hist.evtime: tick event time ahead of / behind the clock; hist.shrink: interval decrease + reopen with the long segment "
+            "hist.evtime: tick event time ahead of / behind the clock; rms: the real removeSeg on sorted id lists x ids present / below / "
+            "between / above; hist.race: a create issued while a retention run's first physical delete is parked (blocking TSTable.Close), "
+            "lifecycle DeleteExpiredSegments racing DeleteOldestSegment on the oldest segment; hist.shrink: interval decrease + reopen with the long segment "
             "newest/oldest/middle, clock inside its persisted range + TTL; odb.stream/measure/trace: the engines' real supplier.OpenDB "
             "for groups with 0-3 lifecycle stages and node labels matching stage k / none / absent (oracle only: options of the opened "
             "database = pub.ResolveStage = cumulative-TTL specification); non-trivial = distinct history")
@@ -266,7 +295,8 @@ class C07(vlib.Spec):
         return go_out == lean_out
 
     def cases(self, rng, n):
-        out = L.odb_cases(rng, max(96, n // 10))
+        out = L.odb_cases(rng, max(96, n // 10)) + L.rms_cases(rng, max(300, n // 3))
+        out += [hist_race(rng) for _ in range(max(60, n // 12))]
         for i in range(n):
             r = i % 10
             if r < 4:
